@@ -38,14 +38,37 @@ def roundtrip_real(obj, cfg, tag):
     if cfg.get("pre") is not None and cfg["mode"] == "o":
         # overwrite mode: an earlier, different object already lives at the target
         sc.Builder(None).build(cfg["pre"]).save(path, mode="w", store=cfg["store"])
-    obj.save(target, mode=cfg["mode"], store=cfg["store"], compression_level=cfg["level"])
-    loaded = serialize.load(target)
+    if cfg.get("form") == "pos":
+        # positional call forms (parameter order of the pinned signatures, see SIGNATURES)
+        obj.save(target, cfg["mode"], cfg["store"], (), cfg["level"])
+        loaded = serialize.load(target, ())
+    else:
+        obj.save(target, mode=cfg["mode"], store=cfg["store"], compression_level=cfg["level"])
+        loaded = serialize.load(target)
     return loaded, base
+
+
+# parameter order of the public entry points the positional calls rely on (a reordering is an API
+# change that keyword calls cannot see)
+SIGNATURES = {
+    "AutoSerialize.save": ["self", "path", "mode", "store", "skip", "compression_level"],
+    "load": ["path", "skip"],
+}
+
+
+def signature_tie(ctx):
+    import inspect
+    from quantem.core.io import serialize
+    got = {"AutoSerialize.save": list(inspect.signature(serialize.AutoSerialize.save).parameters),
+           "load": list(inspect.signature(serialize.load).parameters)}
+    ctx.count()
+    if got != SIGNATURES:
+        ctx.disagree("signatures", {"signatures": True}, SIGNATURES, got, note="parameter order of save()/load()")
 
 
 def gen_cfg(rng, store):
     cfg = {"store": store, "level": rng.choice([None, 0, 1, 2, 3, 4, 5, 6, 7, 8, 9]), "pathlib": rng.chance(0.5),
-           "mode": rng.choice(["w", "o"])}
+           "mode": rng.choice(["w", "o"]), "form": rng.choice(["kw", "kw", "pos"])}
     if cfg["mode"] == "o" and rng.chance(0.6):
         # pre-existing target written from another object whose member names overlap the generator's
         g = sc.Gen(rng.fork(77), {})
@@ -280,6 +303,7 @@ def run(ctx):
                 c = json.load(open(os.path.join(cdir, f)))
                 check_case(ctx, drv, c["recipe"], c["cfgs"], f"c{idx}")
                 idx += 1
+        signature_tie(ctx)
         seqkeys_stream(ctx, drv)
         # fixed probe of a recorded finding (int/float promotion in the ndarray fast path)
         probe = ["obj", "SA", [["a", ["list", [["scalar", ["int", str(2 ** 62 + 1)]], ["scalar", sc.S(0.5)]]]]]]
